@@ -710,6 +710,27 @@ func (c *Client) BatchOpt(ctx context.Context, payloads []kmip.OperationPayload,
 	if int(resp.Header.BatchCount) != len(resp.BatchItem) || len(resp.BatchItem) != len(payloads) {
 		return nil, errors.New("Batch count mismatch")
 	}
+	// A successful item must carry the response payload of the operation requested at the same position.
+	// If one does not, the whole response is refused, and the error also reports the failed items.
+	var errs []error
+	violation := false
+	for i := range resp.BatchItem {
+		bi := &resp.BatchItem[i]
+		if err := bi.Err(); err != nil {
+			errs = append(errs, err)
+			continue
+		}
+		if bi.ResponsePayload == nil {
+			violation = true
+			errs = append(errs, fmt.Errorf("Missing response payload in batch item %d", i))
+		} else if op := bi.ResponsePayload.Operation(); op != payloads[i].Operation() {
+			violation = true
+			errs = append(errs, fmt.Errorf("Unexpected response payload for operation %q in batch item %d, expected %q", ttlv.EnumStr(op), i, ttlv.EnumStr(payloads[i].Operation())))
+		}
+	}
+	if violation {
+		return nil, errors.Join(errs...)
+	}
 	return resp.BatchItem, nil
 }
 
